@@ -13,6 +13,9 @@ package lib
 //   Q<n> k<hex> S3 .. gendemo Map__String__Msg3
 //   I<hex> Z<hex>     gendemo Int / String
 //   T<hex(engine:type)> <val..>  a node of a typed engine (node_typed.go) for the schema type, holding the value
+//   F<hex(engine:type:key)> <val..>  the child looked up under key in such a node (a field of a struct, a map value)
+//   K<hex(engine:type:key)> <val..>  the key node its map iterator yields for key
+//   (engines ending in "r": the representation-level node of it)
 import (
 	"errors"
 	"fmt"
@@ -31,7 +34,8 @@ type NSpec struct {
 	Tag byte
 	Eng string // T: typed engine and schema type text
 	Ty  string
-	V   *Val // scalars; T: the value
+	Key string // F, K
+	V   *Val   // scalars; T, F, K: the value of the typed container
 	L   []*NSpec
 	K   []string // keys for m, M, S, Q
 }
@@ -51,6 +55,8 @@ func (s *NSpec) text(sb *strings.Builder) {
 	switch s.Tag {
 	case 'T':
 		sb.WriteString("T" + Hex(s.Eng+":"+s.Ty) + " " + s.V.Text())
+	case 'F', 'K':
+		sb.WriteString(string(s.Tag) + Hex(s.Eng+":"+s.Ty+":"+s.Key) + " " + s.V.Text())
 	case 'u':
 		sb.WriteString("u" + s.V.I.Text(16))
 	case 'I':
@@ -76,6 +82,15 @@ func (s *NSpec) text(sb *strings.Builder) {
 // Val returns the abstract value of the spec.
 func (s *NSpec) Val() *Val {
 	switch s.Tag {
+	case 'K':
+		return Str(s.Key)
+	case 'F':
+		for _, e := range s.V.M {
+			if e.K == s.Key {
+				return e.V
+			}
+		}
+		return s.V
 	case 'a', 'A':
 		v := &Val{Kind: KList}
 		for _, c := range s.L {
@@ -107,6 +122,15 @@ func parseNSpec(toks []string) (*NSpec, []string, error) {
 			return nil, nil, err
 		}
 		return &NSpec{Tag: 'T', Eng: et[:i], Ty: et[i+1:], V: v}, rest2, nil
+	case 'F', 'K':
+		et := UnHex(body)
+		i := strings.IndexByte(et, ':')
+		j := i + 1 + strings.IndexByte(et[i+1:], ':')
+		v, rest2, err := parseVal(rest)
+		if err != nil {
+			return nil, nil, err
+		}
+		return &NSpec{Tag: t[0], Eng: et[:i], Ty: et[i+1 : j], Key: et[j+1:], V: v}, rest2, nil
 	case 'u', 'I':
 		i, ok := new(big.Int).SetString(body, 16)
 		if !ok {
@@ -162,7 +186,7 @@ func parseNSpec(toks []string) (*NSpec, []string, error) {
 // AssignNode(child) so that children are kept as they are wherever the holder allows it.
 func (s *NSpec) Build() (datamodel.Node, error) {
 	switch s.Tag {
-	case 'T':
+	case 'T', 'F', 'K':
 		t, err := SchParse(s.Ty)
 		if err != nil {
 			return nil, err
@@ -174,7 +198,32 @@ func (s *NSpec) Build() (datamodel.Node, error) {
 		if err := Assemble(nb, s.V); err != nil {
 			return nil, err
 		}
-		return nb.Build(), nil
+		c := nb.Build()
+		if TypedRepr(s.Eng) { // builders of the representation prototype hand back the type-level node
+			if tn, ok := c.(schema.TypedNode); ok {
+				c = tn.Representation()
+			}
+		}
+		switch s.Tag {
+		case 'F':
+			return c.LookupByString(s.Key)
+		case 'K':
+			it := c.MapIterator()
+			if it == nil {
+				return nil, fmt.Errorf("K: not a map")
+			}
+			for !it.Done() {
+				k, _, err := it.Next()
+				if err != nil {
+					return nil, err
+				}
+				if ks, err := k.AsString(); err == nil && ks == s.Key {
+					return k, nil
+				}
+			}
+			return nil, fmt.Errorf("K: key %q not yielded", s.Key)
+		}
+		return c, nil
 	case 'u':
 		return basicnode.NewUint(s.V.I.Uint64()), nil
 	case 'I':
